@@ -196,3 +196,109 @@ Lemma ex_auto_patch_undone :
        /\ Patch.apply_ops true [] k_ws k_ops = Patch.Applied g c
        /\ file_at g [k_b] = None /\ rewind g ck = (f2, None) /\ file_at f2 [k_b] = Some (bs "bee"%string).
 Proof. split; [vm_compute; reflexivity|]. split; [vm_compute; reflexivity|]. do 4 eexists. vm_compute. repeat split. Qed.
+
+(* ---------- every path of a parsed patch passed parse_rel_path: relative, no `..` ---------- *)
+Definition okp (p : list N) : Prop := is_absolute p = false /\ has_parent p = false.
+Definition okops (ops : list Patch.op) : Prop := forall p, In p (Patch.affected_paths ops) -> okp p.
+
+Lemma parse_rel_ok r p : Patch.parse_rel_path r = Some p -> okp p.
+Proof.
+  unfold Patch.parse_rel_path. destruct (Patch.trim r) as [|c t] eqn:E; [discriminate|].
+  destruct (starts_slash (c :: t)) eqn:Ea; [discriminate|]. destruct (has_parent_dir (c :: t)) eqn:Eh; [discriminate|].
+  intros H; inversion H; subst p. split; [exact Ea|exact Eh].
+Qed.
+
+Lemma okops_snoc ops o : okops ops -> (forall p, In p (Patch.op_paths o) -> okp p) -> okops (ops ++ [o]).
+Proof.
+  intros H1 H2 p Hp. unfold Patch.affected_paths in Hp. rewrite flat_map_app in Hp. apply in_app_or in Hp.
+  destruct Hp as [Hp|Hp]; [apply H1; exact Hp|]. cbn [flat_map] in Hp. rewrite app_nil_r in Hp. apply H2; exact Hp.
+Qed.
+
+Definition pinv (s : Patch.pstate) : Prop :=
+  match s with
+  | Patch.PTop ops | Patch.PDone ops => okops ops
+  | Patch.PAdd ops p _ | Patch.PUpd0 ops p => okops ops /\ okp p
+  | Patch.PUpd ops p mv _ _ => okops ops /\ okp p /\ (forall q, mv = Some q -> okp q)
+  | Patch.PErr => True
+  end.
+
+Lemma step_top_inv ops l : okops ops -> pinv (Patch.step_top ops l).
+Proof.
+  intros H. unfold Patch.step_top. destruct (lN_eqb l Patch.H_END); [exact H|].
+  destruct (Patch.strip_prefix Patch.H_ADD l) as [r|].
+  { destruct (Patch.parse_rel_path r) as [p|] eqn:E; [|exact I]. split; [exact H|eapply parse_rel_ok; exact E]. }
+  destruct (Patch.strip_prefix Patch.H_DEL l) as [r|].
+  { destruct (Patch.parse_rel_path r) as [p|] eqn:E; [|exact I]. apply okops_snoc; [exact H|].
+    intros q [<-|[]]. eapply parse_rel_ok; exact E. }
+  destruct (Patch.strip_prefix Patch.H_UPD l) as [r|]; [|exact I].
+  destruct (Patch.parse_rel_path r) as [p|] eqn:E; [|exact I]. split; [exact H|eapply parse_rel_ok; exact E].
+Qed.
+
+Lemma upd_paths_ok p mv hs : okp p -> (forall q, mv = Some q -> okp q) -> forall x, In x (Patch.op_paths (Patch.Upd p mv hs)) -> okp x.
+Proof.
+  intros Hp Hm x Hx. destruct mv as [q|]; cbn [Patch.op_paths] in Hx.
+  - destruct Hx as [<-|[<-|[]]]; [exact Hp|apply Hm; reflexivity].
+  - destruct Hx as [<-|[]]; exact Hp.
+Qed.
+
+Lemma step_upd_inv ops p mv hs cur l : okops ops -> okp p -> (forall q, mv = Some q -> okp q) ->
+  pinv (Patch.step_upd ops p mv hs cur l).
+Proof.
+  intros H Hp Hm. unfold Patch.step_upd. destruct (Patch.starts_with Patch.H_STARS l).
+  - destruct (Patch.flush_cur hs cur) as [|h hs']; [exact I|]. apply step_top_inv. apply okops_snoc; [exact H|].
+    apply upd_paths_ok; assumption.
+  - destruct (Patch.starts_with [64; 64] l); [split; [exact H|split; [exact Hp|exact Hm]]|].
+    destruct l as [|c rest]; [exact I|]. destruct ((c =? 32) || (c =? 43) || (c =? 45)); [split; [exact H|split; [exact Hp|exact Hm]]|exact I].
+Qed.
+
+Lemma n43 (c : N) : c <> 43 -> forall (A : Type) (x y : A), match c with 43 => x | _ => y end = y.
+Proof.
+  intros H A x y. destruct c as [|q]; [reflexivity|].
+  destruct q as [q|q|]; try reflexivity. destruct q as [q|q|]; try reflexivity. destruct q as [q|q|]; try reflexivity.
+  destruct q as [q|q|]; try reflexivity. destruct q as [q|q|]; try reflexivity. destruct q as [q|q|]; try reflexivity.
+  exfalso; apply H; reflexivity.
+Qed.
+
+Lemma pstep_inv s l : pinv s -> pinv (Patch.pstep s l).
+Proof.
+  destruct s as [ops|ops p content|ops p|ops p mv hs cur|ops|]; cbn [pinv Patch.pstep]; intros H.
+  - apply step_top_inv; exact H.
+  - destruct H as [H Hp]. destruct (Patch.starts_with Patch.H_STARS l).
+    + apply step_top_inv. apply okops_snoc; [exact H|]. intros q [<-|[]]. exact Hp.
+    + destruct l as [|c rest]; [exact I|].
+      destruct (N.eq_dec c 43) as [->|E]; [split; assumption|]. rewrite (n43 c E). exact I.
+  - destruct H as [H Hp]. destruct (Patch.strip_prefix Patch.H_MOVE l) as [d|].
+    + destruct (Patch.parse_rel_path d) as [q|] eqn:E; [|exact I]. split; [exact H|]. split; [exact Hp|].
+      intros q' Hq. inversion Hq; subst q'. eapply parse_rel_ok; exact E.
+    + apply step_upd_inv; [exact H|exact Hp|intros q Hq; discriminate].
+  - destruct H as (H & Hp & Hm). apply step_upd_inv; assumption.
+  - exact H.
+  - exact I.
+Qed.
+
+Lemma fold_pstep_inv : forall ls s, pinv s -> pinv (fold_left Patch.pstep ls s).
+Proof. induction ls as [|l ls IH]; intros s H; [exact H|]. cbn [fold_left]. apply IH. apply pstep_inv. exact H. Qed.
+
+Lemma parse_patch_ok text ops : Patch.parse_patch text = Some ops -> okops ops.
+Proof.
+  unfold Patch.parse_patch. destruct (Patch.str_lines text) as [|l0 rest]; [discriminate|].
+  destruct (lN_eqb l0 Patch.H_BEGIN); [|discriminate].
+  pose proof (fold_pstep_inv rest (Patch.PTop []) (fun p Hp => match Hp with end)) as H.
+  destruct (fold_left Patch.pstep rest (Patch.PTop [])) as [o|o p c|o p|o p mv hs cur|o|]; try discriminate.
+  intros E; inversion E; subst o. exact H.
+Qed.
+
+(* the same for a patch TEXT: whatever the parser accepts *)
+Theorem auto_patch_text_undone f root text g c ck :
+  is_absolute root = true -> tree_b f = true -> nonul_b f = true ->
+  forall ops, Patch.parse_patch text = Some ops ->
+  (forall p q, In p (Patch.affected_paths ops) -> In q (Patch.affected_paths ops) ->
+     (exists s, comps q = comps p ++ s /\ comps p <> [] /\ s <> []) -> lookup f (comps p) = Some Dir) ->
+  create f root (Patch.affected_paths ops) = Ok ck ->
+  Patch.apply_patch true [] f text = Patch.Applied g c ->
+  exists f2, rewind g ck = (f2, None) /\ forall q, file_at f2 q = file_at f q.
+Proof.
+  intros Hr Ht Hn ops Hp Hnest Hc Ha. unfold Patch.apply_patch in Ha. rewrite Hp in Ha.
+  apply (auto_patch_undone_b f root ops g c ck Hr Ht Hn); try assumption.
+  exact (parse_patch_ok text ops Hp).
+Qed.
